@@ -247,9 +247,32 @@ func (a *recAgg) Flush(d time.Duration) {
 func (a *recAgg) Process(f statsd.ProcessFunc) { f(gostatsd.NewMetricMap(false)) }
 func (a *recAgg) Reset()                       { a.sig <- struct{}{} }
 
-type proc struct{ a *recAgg }
+// proc stands for the backend handler: one recording aggregator, plus optionally further workers' aggregators that only
+// note the elapsed time they are told (every aggregator of a flush must be told the same).
+type proc struct {
+	a    *recAgg
+	sibs []*sibAgg
+}
+
+type sibAgg struct {
+	mu        sync.Mutex
+	intervals []time.Duration
+}
+
+func (s *sibAgg) ReceiveMap(*gostatsd.MetricMap) {}
+func (s *sibAgg) Flush(d time.Duration) {
+	s.mu.Lock()
+	s.intervals = append(s.intervals, d)
+	s.mu.Unlock()
+}
+func (s *sibAgg) Process(f statsd.ProcessFunc) { f(gostatsd.NewMetricMap(false)) }
+func (s *sibAgg) Reset()                       {}
 
 func (p proc) Process(ctx context.Context, fn statsd.DispatcherProcessFunc) gostatsd.Wait {
+	// the siblings first: when the recording aggregator signals its Reset, the whole flush has run
+	for i, sb := range p.sibs {
+		fn(i+1, sb)
+	}
 	fn(0, p.a)
 	return func() {}
 }
@@ -262,7 +285,11 @@ func TestAlignedFlusher(t *testing.T) {
 		clck := clock.NewMock(start)
 		ctx, cancel := context.WithCancel(stats.NewContext(clock.Context(context.Background(), clck), stats.NewNullStatser()))
 		agg := &recAgg{clck: clck, sig: make(chan struct{}, 64)}
-		fl := statsd.NewMetricFlusher(interval, offset, true, proc{agg}, backendsGen().Draw(t, "backends"))
+		var sibs []*sibAgg
+		for i, k := 0, rapid.IntRange(0, 3).Draw(t, "further-workers"); i < k; i++ {
+			sibs = append(sibs, &sibAgg{})
+		}
+		fl := statsd.NewMetricFlusher(interval, offset, true, proc{a: agg, sibs: sibs}, backendsGen().Draw(t, "backends"))
 		done := make(chan struct{})
 		go func() { fl.Run(ctx); close(done) }()
 		defer func() { cancel(); <-done }()
@@ -283,6 +310,19 @@ func TestAlignedFlusher(t *testing.T) {
 		agg.mu.Unlock()
 		if len(calls) != n {
 			vt.Fail(t, "C18:flush-count", "%d deadlines reached, %d flushes", n, len(calls))
+		}
+		for wi, sb := range sibs {
+			sb.mu.Lock()
+			got := append([]time.Duration(nil), sb.intervals...)
+			sb.mu.Unlock()
+			if len(got) != n {
+				vt.Fail(t, "C18:flush-count", "worker %d's aggregator was flushed %d times, %d deadlines reached", wi+1, len(got), n)
+			}
+			for i := range got {
+				if got[i] != calls[i].interval {
+					vt.Fail(t, "C18:reported-interval", "flush %d: worker %d's aggregator was told %v elapsed, worker 0's %v (interval %v offset %v)", i, wi+1, got[i], calls[i].interval, interval, offset)
+				}
+			}
 		}
 		var desc []string
 		for i, c := range calls {
@@ -333,7 +373,7 @@ func TestAlignedFlusherJumps(t *testing.T) {
 		clck := clock.NewMock(start)
 		ctx, cancel := context.WithCancel(stats.NewContext(clock.Context(context.Background(), clck), stats.NewNullStatser()))
 		agg := &recAgg{clck: clck, sig: make(chan struct{}, 256), slow: map[int]bool{}, entered: make(chan struct{}, 1), release: make(chan struct{})}
-		fl := statsd.NewMetricFlusher(interval, offset, true, proc{agg}, backendsGen().Draw(t, "backends"))
+		fl := statsd.NewMetricFlusher(interval, offset, true, proc{a: agg}, backendsGen().Draw(t, "backends"))
 		done := make(chan struct{})
 		go func() { fl.Run(ctx); close(done) }()
 		released := true
